@@ -889,6 +889,17 @@ def run_hammer_stream(prop, stream, tier, seed, workdir, scale=1):
                         verdicts.append({"kind": "MON", "id": pid, "episode": 0, "step": 0, "raw": rp,
                                          "text": f"MON {pid} :: after parallel memory-aware stores into {f[2]} a stored key has no queue slot (or a slot is duplicated) at {incons} quiescent points: it can never be evicted and keeps the cache over its bound"})
                 continue
+            if f[0] == "HI":
+                calls, stale_left, reexec = int(f[3]), int(f[4]), int(f[5])
+                acc["steps"] += calls
+                acc["events"]["parallel-refreshes-of-stale-entries"] = acc["events"].get("parallel-refreshes-of-stale-entries", 0) + calls
+                acc["nontrivial"].add(hash((r, "HI", f[1])))
+                if stale_left or reexec:
+                    for pid in ("C11", "C01"):
+                        verdicts.append({"kind": "MON", "id": pid, "episode": 0, "step": 0, "raw": [f"# hammer {seed + r} {threads} {rounds}", line],
+                                         "text": f"MON {pid} :: {f[2]}: after parallel calls that all found their entry stale (invalidate_on) and recomputed it, {stale_left} key(s) still hold the value "
+                                                 f"from BEFORE the refreshes and {reexec} had to be computed again: a refreshed value was not stored under contention (free-running threads)"})
+                continue
             if f[0] == "HK":
                 calls, lost, isres = int(f[3]), int(f[4]), f[5] == "1"
                 acc["steps"] += calls
